@@ -212,6 +212,14 @@ func (i *compressedPostingIterator) next(limit uint32) {
 
 	for i._first <= limit && len(i.blob) > 0 {
 		delta, sz := binary.Uvarint(i.blob)
+		if sz <= 0 {
+			// Corrupt posting list: a truncated (sz == 0) or overlong
+			// (sz < 0) varint. sz == 0 would make no progress and spin
+			// forever; treat it as the end of the list.
+			i.blob = nil
+			i._first = math.MaxUint32
+			return
+		}
 		i._first += uint32(delta)
 		i.indexBytesLoaded += sz
 		i.blob = i.blob[sz:]
